@@ -202,6 +202,38 @@ def oracle_clusters(t):
     return {side for side, _ in n_edges(t) if len(side) >= 2}
 
 
+def n_reroot(t, path):
+    """independent re-rooting of a nested tree at the internal node at `path` (undirected-graph walk;
+    an edge keeps its length, the old root vanishes if it is left with two neighbours)"""
+    nodes = []  # id -> [name, children ids, parent id, length]
+    def add(x, parent):
+        i = len(nodes)
+        nodes.append([x[0], [], parent, x[1]])
+        for c in x[2]:
+            nodes[i][1].append(add(c, i))
+        return i
+    add(t, None)
+    # locate the target
+    tgt = 0
+    for k in path:
+        tgt = nodes[tgt][1][k]
+    adj = {i: [] for i in range(len(nodes))}
+    for i, (nm, kids, par, ln) in enumerate(nodes):
+        for c in kids:
+            adj[i].append((c, nodes[c][3], nodes[c][0]))
+            adj[c].append((i, nodes[c][3], nodes[c][0]))
+    def build(i, came, ln, nm):
+        kids = [build(j, i, l2, n2) for j, l2, n2 in adj[i] if j != came]
+        if not kids:
+            return [nodes[i][0], ln, []]
+        if len(kids) == 1 and came is not None and i == 0:
+            # the old root with a single remaining neighbour: merge the two edges
+            k = kids[0]
+            return [k[0], None if (ln is None or k[1] is None) else ln + k[1], k[2]]
+        return [nm if came is not None else "", ln, kids]
+    return build(tgt, None, None, "")
+
+
 def canon(t):
     """order-insensitive canonical form"""
     kids = sorted((canon(c) for c in t[2]), key=lambda x: repr(x))
